@@ -231,6 +231,34 @@ fn run_roundtrip(cx: &mut CaseCx, case: &Value) {
   cx.outcome(format!("t={}", t));
   cx.sample(json!({"t": t, "measurement_len": m.len(), "report_len_no_aux": gen_report(m, e, t, &rnd, &None).map(|r| r.to_bytes().len()).unwrap_or(0)}));
 }
+
+/// large honest reports (payloads beyond 64 KiB) round-trip like any other
+fn run_roundtrip_big(cx: &mut CaseCx, case: &Value) {
+  let ml = case["ml"].as_u64().unwrap() as usize;
+  let al = case["al"].as_u64().unwrap() as usize;
+  let m = prbytes(ml as u64, ml);
+  let aux = if al == 0 { None } else { Some(prbytes(al as u64 + 1, al)) };
+  let msg = match gen_report(&m, b"e", 2, &local_randomness(&m, b"e", 2), &aux) {
+    Ok(x) => x,
+    Err(e) => {
+      cx.viol("C08/generate-failed", e, json!({}));
+      return;
+    }
+  };
+  let enc = msg.to_bytes();
+  cx.eval();
+  cx.nontrivial(fnv(&enc));
+  match guard(|| sta_rs::Message::from_bytes(&enc)) {
+    Ok(Some(m2)) if m2 == msg && m2.to_bytes() == enc => cx.count("big_roundtrips", 1),
+    other => cx.viol("C08/roundtrip/report", format!("an honest report with a {}-byte measurement and {} bytes of associated data (ciphertext {} bytes) does not round-trip: decoded={:?}", ml, al, msg.ciphertext.to_bytes().len(), other.map(|o| o.is_some())), json!({"measurement_len": ml, "aux_len": al, "ciphertext_len": msg.ciphertext.to_bytes().len()})),
+  }
+  match rm::parse_report(&enc) {
+    Some(r) if rm::print_report(&r) == enc => {}
+    _ => cx.viol("C08/layout/report", "large report does not follow the documented layout", json!({"measurement_len": ml})),
+  }
+  cx.outcome("big report");
+}
+
 fn run_roundtrip_adss(cx: &mut CaseCx, case: &Value) {
   let ml = case["ml"].as_u64().unwrap() as usize;
   let rl = case["rl"].as_u64().unwrap() as usize;
@@ -319,6 +347,13 @@ pub fn spec() -> PropSpec {
         },
         run: run_roundtrip,
         min_counts: &[("evaluations", 300)],
+      },
+      Check {
+        name: "roundtrip-large-reports",
+        rule: "honest reports whose ciphertext length straddles 2^16 (65527, 65528, 65529 payload bytes via measurement only / measurement + associated data) and 70000 / 200000 bytes: decode(encode(v)) == v",
+        gen: |_| vec![json!({"ml": 65523, "al": 0}), json!({"ml": 65531, "al": 0}), json!({"ml": 65532, "al": 0}), json!({"ml": 65533, "al": 0}), json!({"ml": 100, "al": 65427}), json!({"ml": 100, "al": 65428}), json!({"ml": 70000, "al": 70000}), json!({"ml": 0, "al": 200000})],
+        run: run_roundtrip_big,
+        min_counts: &[("big_roundtrips", 8)],
       },
       Check {
         name: "roundtrip-adss",
